@@ -339,6 +339,10 @@ func (e *Engine) load(st *State, p *Val, elem types.Type) (*Val, error) {
 	if p.Addr != nil && p.Addr.Kind == "field" {
 		v.From = p.Addr
 	}
+	if v.S == sBytes && !strings.HasPrefix(p.T, "(- ") && !(p.Addr != nil && strings.HasPrefix(p.Addr.Base, "(- ")) {
+		// a []byte read out of an object that existed before this call: whoever else holds that object sees its bytes
+		v.Shared = "a []byte stored in memory that other code can reach"
+	}
 	return v, nil
 }
 
@@ -1033,6 +1037,13 @@ func (e *Engine) sliceInstr(fr *Frame, st *State, in *ssa.Slice) (*Val, error) {
 		if x.S == sBytes {
 			res.T = "(mkBytes (b_nil " + x.T + ") " + sub + ")"
 			res.Borrowed = x.Borrowed
+			res.Shared = x.Shared
+			if x.Shared != "" {
+				res.NotShrunk = eq(hi, "(slen "+s+")")
+				if x.NotShrunk != "" {
+					res.NotShrunk = and(x.NotShrunk, res.NotShrunk)
+				}
+			}
 		} else {
 			res.T = sub
 		}
